@@ -51,6 +51,7 @@ def step (s : St) (ws : List String) : St × String :=
        hosts := [], down := [] }, "ok")
   | ["host", id, addr, dc, rack, toks] =>
     ({ s with hosts := ⟨nat id, nat addr, nat dc, nat rack, natList toks⟩ :: s.hosts.filter (fun h => h.id != nat id) }, "ok")
+  | ["race", _] => (s, "ok")   -- thorough tier: concurrent run on the real code (no panic, no nil host); nothing to model
   | [op, id] =>
     match s.host? (nat id) with
     | none => (s, "bad-op")
